@@ -156,6 +156,11 @@ class Model:
                 for t in n.targets:
                     if isinstance(t, ast.Name):
                         m.assigns[t.id] = n.value
+        # module-level names that some function rebinds (`global x` + assignment) are variables, not constants
+        m.mutable_globals = set()
+        for n in ast.walk(m.tree):
+            if isinstance(n, ast.Global):
+                m.mutable_globals.update(n.names)
 
     def _toplevel(self, body):
         # flatten try/except ImportError and simple if blocks at module level
